@@ -84,6 +84,8 @@ klass('RelayPoolClient', ['Greenlet'], module=MP,
       ghost={'started': 'Bool', 'linked_any': 'Bool', 'linked_value_only': 'Bool'})
 extern('RelayPoolClient.start', params={'self': 'RelayPoolClient'}, modifies=['self.started'], ensures=['self.started'])
 extern('RelayPoolClient.kill', params={'self': 'RelayPoolClient'})
+for _m in ('successful', 'ready', 'dead'):
+    extern('RelayPoolClient.' + _m, params={'self': 'RelayPoolClient'}, returns='Bool', notes='gevent Greenlet.%s(): how the greenlet ended (arbitrary here)' % _m)
 # gevent Greenlet.link* : which endings of the greenlet invoke the callback
 extern('RelayPoolClient.link', params={'self': 'RelayPoolClient', 'cb': 'Fn'}, modifies=['self.linked_any'],
        ensures=['self.linked_any'], notes='Greenlet.link(cb): cb runs when the greenlet ends for ANY reason')
